@@ -214,13 +214,16 @@ func EvalString(this any, code string, emptyEnv bool) (object.Object, error) {
 	evalState, ok := this.(*State)
 	if emptyEnv {
 		maxDepth := DefaultMaxDepth
+		depth := 0
 		var ctx context.Context
 		if ok {
 			maxDepth = evalState.MaxDepth // in case it's lower, carry that lower value.
+			depth = evalState.depth       // and how deep we already are,
 			ctx = evalState.Context       // and the deadline of the evaluation we are part of.
 		}
 		evalState = NewBlankState()
 		evalState.MaxDepth = maxDepth
+		evalState.depth = depth
 		if ctx != nil {
 			evalState.Context = ctx
 		}
